@@ -43,7 +43,11 @@ pub struct RenderContext<'reg: 'rc, 'rc> {
     modified_context: Option<Rc<Context>>,
 
     partials: BTreeMap<String, &'rc Template>,
-    partial_block_stack: VecDeque<&'rc Template>,
+    // bodies of the enclosing `{{#> }}` calls, most recent first, each with the
+    // `partial_block_depth` that was current where the body was written
+    partial_block_stack: VecDeque<(&'rc Template, isize)>,
+    // which entry `@partial-block` denotes, counted from the oldest one
+    // starting at 1; 0 means there is none
     partial_block_depth: isize,
     local_helpers: BTreeMap<String, Rc<dyn HelperDef + Send + Sync + 'rc>>,
     /// current template name
@@ -168,10 +172,7 @@ impl<'reg: 'rc, 'rc> RenderContext<'reg, 'rc> {
     /// Get registered partial in this render context
     pub fn get_partial(&self, name: &str) -> Option<&'rc Template> {
         if name == partial::PARTIAL_BLOCK {
-            return self
-                .partial_block_stack
-                .get(self.partial_block_depth as usize)
-                .copied();
+            return self.current_partial_block().map(|(t, _)| t);
         }
         self.partials.get(name).copied()
     }
@@ -181,22 +182,33 @@ impl<'reg: 'rc, 'rc> RenderContext<'reg, 'rc> {
         self.partials.insert(name, partial);
     }
 
+    fn current_partial_block(&self) -> Option<(&'rc Template, isize)> {
+        let len = self.partial_block_stack.len() as isize;
+        if self.partial_block_depth < 1 || self.partial_block_depth > len {
+            return None;
+        }
+        self.partial_block_stack
+            .get((len - self.partial_block_depth) as usize)
+            .copied()
+    }
+
+    /// the block becomes what `@partial-block` denotes; it remembers what
+    /// `@partial-block` denoted where it was written
     pub(crate) fn push_partial_block(&mut self, partial: &'rc Template) {
-        self.partial_block_stack.push_front(partial);
+        self.partial_block_stack
+            .push_front((partial, self.partial_block_depth));
+        self.partial_block_depth = self.partial_block_stack.len() as isize;
     }
 
     pub(crate) fn pop_partial_block(&mut self) {
         self.partial_block_stack.pop_front();
     }
 
-    pub(crate) fn inc_partial_block_depth(&mut self) {
-        self.partial_block_depth += 1;
-    }
-
-    pub(crate) fn dec_partial_block_depth(&mut self) {
-        let depth = &mut self.partial_block_depth;
-        if *depth > 0 {
-            *depth -= 1;
+    /// while the current partial block is rendered, `@partial-block` denotes
+    /// what it denoted where that block was written
+    pub(crate) fn enter_partial_block(&mut self) {
+        if let Some((_, depth)) = self.current_partial_block() {
+            self.partial_block_depth = depth;
         }
     }
 
